@@ -1,7 +1,7 @@
 (* Correspondence cases for C18: one row of the role table as observed on the real handlers
    (recording backend, recording forwarder, scripted /status endpoint), or one interleaving of two
    follower reads replayed on the real code by gating. *)
-From KB Require Export Model.Roles.
+From KB Require Export Model.Roles Model.RolesN.
 Local Open Scope N_scope.
 
 Inductive tobs := TObs (done : bool) (begin scan : N) (joined : bool).
@@ -11,6 +11,9 @@ Inductive c18_case :=
 | SchedCase (leader0 frev0 : N) (ls : list label) (a b : tobs) (sets : list (N * N))    (* sets: (value before, value written) *)
 | OverlapCase (r : N) (l : reach) (b_resp : rclass) (sets : list N) (a_scan : N) (a_nonempty : bool)
 | FollowCase (m : rmode) (v : revsel) (r1 r2 : N) (sets : list N) (hdr2 : N)    (* second read after the leader moved from r1 to r2 *)
+(* one interleaving of n follower reads (the driver: n = 3) replayed on the real code by gating, against Model/RolesN.v:
+   per read its observation, the SetCurrentRevision log (value before, value written), the follower's revision at the end *)
+| SchedNCase (n : nat) (leader0 frev0 : N) (ls : list nlabel) (obs : list tobs) (sets : list (N * N)) (frev_end : N)
 (* a node wins the election (real server.NewServer, real Campaign); [version] = the lock version it installs.
    At the instant its SetCurrentRevision(version) is entered: what its /status answers ([mid_status] = Some rev on 200)
    and what a follower's List through it returns ([mid_list] = None on error, Some has_k1 otherwise, k1 having been
@@ -60,6 +63,9 @@ Definition c18_check (c : c18_case) : bool :=
       && list_eqb pair_eqb (map (fun x => match x with (_, before, v) => (before, v) end) (i_sets s)) sets
   | FollowCase m v r1 r2 sets hdr2 =>
       let '(ss, h) := follow_model m v r1 r2 in list_eqb N.eqb ss sets && (h =? hdr2)
+  | SchedNCase n l0 f0 ls obs sets frev_end =>
+      let '(s, ss) := nrun_code n l0 f0 ls in
+      list_eqb tobs_eqb (map obs_of_thr (n_thrs s)) obs && list_eqb pair_eqb ss sets && (n_frev s =? frev_end)
   | ForwardCase w r sets hdr1 hdr2 complete2 =>
       let '(ss, h1, h2) := forward_model w r in
       list_eqb N.eqb ss sets && (h1 =? hdr1) && (h2 =? hdr2) && complete2
@@ -82,6 +88,8 @@ Definition c18_validb (c : c18_case) : bool :=
   | SchedCase l0 f0 ls _ _ _ =>                 (* the schedule runs both reads to completion *)
       let s := run_code (i_init l0 f0) ls in thr_done (i_a s) && thr_done (i_b s)
   | FollowCase _ _ r1 r2 _ _ => (0 <? r1) && (r1 <? r2)    (* the leader moved on *)
+  | SchedNCase n l0 f0 ls _ _ _ =>              (* the schedule runs every read to completion *)
+      forallb thr_done (n_thrs (fst (nrun_code n l0 f0 ls)))
   | _ => true
   end.
 Definition c18_checkv (c : c18_case) : bool := c18_validb c && c18_check c.
@@ -148,6 +156,8 @@ Definition c18_oracle (c : c18_case) : option N :=
   | RoleCase k r proxy l obs => role_row_ok k r proxy l obs
   | SchedCase _ _ _ a b sets =>
       ok_if (tobs_fresh a && tobs_fresh b)
+  | SchedNCase _ _ _ _ obs _ _ =>
+      ok_if (forallb tobs_fresh obs)
   | ForwardCase w r sets hdr1 hdr2 complete2 =>
       (* the follower's read revision is only ever set to a revision fetched from the leader (here: r), and a read that
          began after the leader had committed r is served at >= r with everything committed *)
